@@ -58,6 +58,12 @@ inductive JFile (α : Type) where
   | ok (v : α)
 deriving DecidableEq, Repr, Inhabited
 
+/-- The value, or a default for a missing / unreadable file (`unwrap_or_default`). -/
+def JFile.getD {α : Type} (j : JFile α) (dflt : α) : α :=
+  match j with
+  | .ok v => v
+  | _ => dflt
+
 /-- `patches/<n>/`: the directory without `dlc.vmcode`, or with it. -/
 inductive Art where
   | emptyDir
